@@ -205,7 +205,7 @@ def run_c10(ctx):
     # ---- two recorders on one directory (motion + test recording, as handleConn wires them), started in the same
     #      millisecond and a few milliseconds apart: every *.cptv must still be a complete recording
     two_runs = 0
-    for ops in ["swwwSWWWpP", "sSwWwWwWpP", "szSwWwWwWpzP", "swwSWWpzswwPp"]:
+    for ops in ["swwwSWWWpP", "sSwWwWwWpP", "szSwWwWwWpzP", "swwSWWpzswwPp", "xswwwpxSWWP", "swwxSWWPp"]:
         for rep in range(3 if tier == "quick" else 20):
             kd = ctx.path("two", "%s_%d" % (ops, rep), "x")[:-2]
             os.makedirs(kd, exist_ok=True)
@@ -216,8 +216,11 @@ def run_c10(ctx):
             r = t("TestVerifInspect", dict(VERIF_DIR=kd, VERIF_OUT=insp))
             res = json.load(open(insp))
             two_runs += 1
-            events.append(dict(ev="killrun", scenario=-2, ops=ops, point=-1, calls_done=-1, last_call=None,
-                               before=res["before"], after=res["after"], tworec=True))
+            ev2 = dict(ev="killrun", scenario=-2, ops=ops, point=-1, calls_done=-1, last_call=None,
+                       before=res["before"], after=res["after"], tworec=True)
+            if os.path.exists(kd + ".occupied.json"):
+                ev2["reused"] = json.load(open(kd + ".occupied.json"))["reused"]
+            events.append(ev2)
     # ---- the real start-up path: runMain() finds the debris of a crashed run
     import fam_e2e
     try:
